@@ -8,7 +8,7 @@ import numpy as np
 
 from acnportal import acnsim
 
-from mc.core import Acc
+from mc.core import Acc, guard
 from mc import simspace as S
 
 ID = "C02"
@@ -206,6 +206,7 @@ def stoch_once(item, chooser):
             warnings.simplefilter("ignore")
             sim.run()
     except Exception as exc:  # noqa
+        guard(exc)
         err = exc
     finally:
         c19.SN.random = old
